@@ -120,12 +120,13 @@ def firstSeg : List Name → Option Name
   | id :: rest => if id = SUPER then firstSeg rest else some id
 
 theorem supers_sameExcept {P : Name → Prop} {g g' : Graph} (h : SameOn P g g') :
-    ∀ (rest : List Name) (s : Nat) (id : Name), (∀ x, firstSeg (id :: rest) = some x → P x) →
-      supers g' s id rest = supers g s id rest := by
+    ∀ (rest : List Name) (s : Nat) (id : Name) (after : Bool),
+      (∀ x, firstSeg (id :: rest) = some x → P x) →
+      supers g' s id rest after = supers g s id rest after := by
   intro rest
   induction rest with
   | nil =>
-    intro s id hf
+    intro s id after hf
     unfold supers
     by_cases hid : id = SUPER
     · simp only [hid, ↓reduceIte, Graph.parentModule, parentModuleF_sameExcept h]
@@ -134,7 +135,7 @@ theorem supers_sameExcept {P : Name → Prop} {g g' : Graph} (h : SameOn P g g')
       intro _
       exact hf id (by simp [firstSeg, hid])
   | cons i rest' ih =>
-    intro s id hf
+    intro s id after hf
     unfold supers
     by_cases hid : id = SUPER
     · simp only [hid, ↓reduceIte, Graph.parentModule, parentModuleF_sameExcept h]
@@ -165,7 +166,7 @@ theorem resolveModulePart_sameExcept {P : Name → Prop} {g g' : Graph} (h : Sam
     resolveModulePart g' s p = resolveModulePart g s p := by
   cases p with
   | nil => rfl
-  | cons id rest => exact supers_sameExcept h rest s id hf
+  | cons id rest => exact supers_sameExcept h rest s id false hf
 
 theorem sameOn_refl (P : Name → Prop) (g : Graph) : SameOn P g g where
   decls := rfl
